@@ -99,6 +99,21 @@ class e2e_options:
     }
 
 
+@contract("nanoemoji.nanoemoji._run", props=["C20"])
+class cli_options_by_flag_and_file:
+    bounded_only = True
+    gen = X.gen_cli_options
+    native_call = X.run_cli_options
+    n_quick = 5
+    n_thorough = 60
+    ensures = {
+        # through the real command line: every option, given by flag, in the TOML file or in
+        # both (the flag wins), reaches its observable in the font written under the requested
+        # output name
+        "options-reach-their-observables": lambda glyphs, overrides, by_flag, both, result: X.cli_option_problems(glyphs, overrides, by_flag, both, result) == [],
+    }
+
+
 # ---------------------------------------------------------------------------- C14
 
 
